@@ -43,6 +43,15 @@ def gen(ctx):
         c = cs[0]
         c["f"], c["m"], c["async"] = rng.choice(fs), rng.choice(ms), rng.random() < 0.5
         grid.append(c)
+    # a problem object that carries a configuration WITHOUT a class path: solver and problem are not reconstructible from
+    # configuration, so no config.yaml may be written (and the solver must say so)
+    for solver in (("vi",) if quick else ("vi", "pi", "pvi")):
+        cs = runs.generate(ctx, solver, 1, ks=[4], family="det", **({"clear": False} if solver == "pvi" else {}))
+        if cs:
+            c = cs[0]
+            c["spec"] = dict(c["spec"], config_kind="no_target")
+            c["f"], c["m"], c["async"] = 2, 2, False
+            grid.append(c)
     # frequency 0: nothing may be written, no directory created
     for solver in ("vi", "pi"):
         cs = runs.generate(ctx, solver, 1, ks=[3])
@@ -82,8 +91,11 @@ def oracle(c, r, restored):
         return f"directory holds steps {d['steps']}, expected the {c['m']} most recent of {accepted} = {retained}"
     if d["tmp"]:
         return f"temporary directories left behind: {d['tmp']}"
-    if d["config"] != r["has_full_config"]:
-        return "config.yaml present iff solver and problem are reconstructible from configuration: violated"
+    # generated problems are hand-built objects (no configuration, or one without a class path): never reconstructible
+    if r["has_full_config"]:
+        return "the solver claims that solver and problem are reconstructible from configuration although the problem has no class path"
+    if d["config"]:
+        return "config.yaml was written although solver and problem are not reconstructible from configuration"
     # each retained step holds the state of that iteration
     first_snap = {}
     for s in r["saves"]:
